@@ -1550,12 +1550,18 @@ _COMMON_RULE = ('histories of AISTracker operations under a controlled clock (ti
                 'IndexError, explicit pop_track, raising CREATED / UPDATED subscribers, a subscriber behind the raising one, '
                 'the raising subscriber removed), PRNG-drawn (1-3 raising subscribers, 70 % KeyError on DELETED) and every '
                 'history up to length 3 (quick: 2 behaviours) / 4 (thorough: 5 behaviours) with a raising subscriber; '
-                'a case is one history; distinct = distinct (configuration incl. behaviours, operation list)')
+                'histories in which the configuration changes -- assignments to tracker.ttl_in_seconds (shorter, longer, None, '
+                'with and without an earlier cleanup() that found nothing due) and tracker.stream_is_ordered = False (then older '
+                'timestamps) -- hand-aimed, PRNG-drawn and every history up to length 3 (quick) / 4 (thorough) over the alphabet '
+                'extended by ttl := 1 s / 3 s / None and the switch; 70-150 vessels reaching the TTL in one cleanup()/update() '
+                '(C13; all four in the thorough tier); a subscriber registered, removed and registered again (same pair) followed '
+                'by events; a case is one history; distinct = distinct (configuration incl. behaviours, operation list)')
 RULE = {
     'C12': _COMMON_RULE + '; after every operation tracks / get_track are compared with the log specification sp_track_of',
     'C13': _COMMON_RULE + '; after every update()/cleanup() the remaining and the expired tracks are judged by sp_ttl_okb',
     'C14': _COMMON_RULE + '; n_latest_tracks(n) is queried for n = 0 .. |tracks|+1 in the reached states and judged by sp_top_nb',
-    'C15': _COMMON_RULE + '; the events of every operation are compared with sp_expected_events, the per-MMSI trace with sp_alive',
+    'C15': _COMMON_RULE + '; the events of every operation are compared with sp_expected_events, the per-MMSI trace with sp_alive; '
+           'every event must reach every subscriber registered at that moment (up to the first one that raises) and no removed one',
 }
 ASSUMPTIONS = ['callbacks do not call back into the tracker (they may raise: C13-C15 are checked with raising subscribers; C12 '
                'is stated and checked for subscribers that return normally)',
@@ -1565,7 +1571,10 @@ ASSUMPTIONS = ['callbacks do not call back into the tracker (they may raise: C13
                "implementation's DELETED deliveries (the theorems hold for every order)",
                'every callback is registered at most once per event for the oracle (double registration is exercised in '
                'the correspondence only)',
-               'the clock is read at most at one value during one operation']
+               'the clock is read at most at one value during one operation',
+               'stream_is_ordered is only ever switched from True to False (the other direction asserts an order nobody enforced and '
+               'is outside C14); ttl_in_seconds may be assigned any value at any time',
+               'the deliveries oracle of C15 stops judging a history at the first double registration of one (event, callback) pair']
 TRUSTED_EXTRA = ['Prim/IntDict.v: dict insertion order, assignment to an existing key keeps its position, popitem() is LIFO; '
                  'sorted() is stable (modelled by insertion sort); iterating a set of ints visits exactly its elements, in '
                  "an order the model takes as a parameter (the check reads it off the implementation's DELETED deliveries; "
